@@ -14,7 +14,8 @@
 (***************************************************************************)
 EXTENDS EFCorpus, Json
 
-CONSTANT Tier
+CONSTANT Tier,
+         Seed      \* >= 1: shifts which part of a sampled family is taken (1 = the default sample)
 
 VARIABLE row
 vars == <<row>>
@@ -96,14 +97,14 @@ Init == \E sc \in 1..2, m1 \in Modes : row = [k |-> "h0", sc |-> sc, m1 |-> m1, 
 Next == /\ ~row.done
         /\ \/ \E m2 \in Modes : row' = Row(row.sc, <<row.m1, m2>>)
            \/ \E m2 \in Modes, m3 \in Modes :
-                /\ (Tier = "thorough" \/ (row.m1 + 3 * m2 + 7 * m3) % 4 = 0)
+                /\ (Tier = "thorough" \/ (row.m1 + 3 * m2 + 7 * m3 + Seed - 1) % 4 = 0)
                 /\ row' = Row(row.sc, <<row.m1, m2, m3>>)
            \/ /\ Tier = "thorough"
               /\ \E m2 \in Modes, m3 \in Modes, m4 \in Modes :
                    row' = Row(row.sc, <<row.m1, m2, m3, m4>>)
            \/ /\ Tier = "thorough"
               /\ \E m2 \in Modes, m3 \in Modes, m4 \in Modes, m5 \in Modes :
-                   /\ (row.m1 + 3 * m2 + 7 * m3 + 11 * m4 + 13 * m5) % 5 = 0
+                   /\ (row.m1 + 3 * m2 + 7 * m3 + 11 * m4 + 13 * m5 + Seed - 1) % 5 = 0
                    /\ row' = Row(row.sc, <<row.m1, m2, m3, m4, m5>>)
 
 Spec == Init /\ [][Next]_vars
